@@ -188,7 +188,7 @@ func valid07(k *c07Case) bool {
 
 func c07(ctx *core.Ctx) {
 	quietLogs()
-	ctx.Rule("matrix: entry {ServeHTTP, Dispatch, Handle, HandleWithFilter} x container switch x route override {unset, off, on} x Accept-Encoding (12 values) x pre-set Content-Encoding x provider {sync.Pool, bounded 0/1/4, custom non-pooling, custom recycling-on-release} x outcome {ok, 404, 405, 406, 415, panic before output, panic after partial output} x writer already a CompressingResponseWriter x payload {0, 1, 100, 70000 (1 MB thorough), 512/1024/4096/8192/32768/65536 +-1} in random chunks, one call, byte by byte or all-but-the-last-byte across a container filter (before/after) and the handler, explicit handler statuses {none, 200, 201, 206, 404, 500}, forwarding handlers (Response handed to a nested Dispatch before anything is written), RouteBuilders reused afterwards for a sibling route with the opposite setting (a third of the cells); custom or default error/recover writers; every 5th ServeHTTP cell runs behind a real net/http server and is read by an http.Client (no transparent decompression). quick: seeded random sample of cells; thorough: the full product of the switch dimensions, forty payload/chunkings per cell. Oracle per response: applied coding => label in {gzip,deflate}, Accept-Encoding mentions it, encoding enabled for the request, complete-stream decode == logged bytes; else body == logged bytes and no Content-Encoding added. Non-trivial = a response with a non-empty body or an applied coding; distinct by the switch cell (entry, cont, route, AE, preset, outcome, prewrapped, applied).")
+	ctx.Rule("matrix: entry {ServeHTTP, Dispatch, Handle, HandleWithFilter} x container switch x route override {unset, off, on} x Accept-Encoding (12 values) x pre-set Content-Encoding x provider {sync.Pool, bounded 0/1/4, custom non-pooling, custom recycling-on-release} x outcome {ok, 404, 405, 406, 415, panic before output, panic after partial output} x writer already a CompressingResponseWriter x payload {0, 1, 100, 70000 (1 MB thorough), 512/1024/4096/8192/32768/65536/131072/196608/262144 +-1} in random chunks, one call, byte by byte or all-but-the-last-byte across a container filter (before/after) and the handler, explicit handler statuses {none, 200, 201, 206, 404, 500}, forwarding handlers (Response handed to a nested Dispatch before anything is written), RouteBuilders reused afterwards for a sibling route with the opposite setting (a third of the cells); custom or default error/recover writers; every 5th ServeHTTP cell runs behind a real net/http server and is read by an http.Client (no transparent decompression). quick: seeded random sample of cells; thorough: the full product of the switch dimensions, forty payload/chunkings per cell. Oracle per response: applied coding => label in {gzip,deflate}, Accept-Encoding mentions it, encoding enabled for the request, complete-stream decode == logged bytes; else body == logged bytes and no Content-Encoding added. Non-trivial = a response with a non-empty body or an applied coding; distinct by the switch cell (entry, cont, route, AE, preset, outcome, prewrapped, applied).")
 	ctx.Assume("the property does not demand that a coding is applied when enabled; evidence reports how many responses were encoded",
 		"with the default recover handler the stack text is not predictable: prefix and stream completeness are judged")
 	defer restful.SetCompressorProvider(restful.NewSyncPoolCompessors())
@@ -252,7 +252,7 @@ func c07(ctx *core.Ctx) {
 		}
 		if r.Chance(1, 4) {
 			// sizes at and around the buffer sizes code likes to use
-			k.Payload = []int{512, 1024, 4096, 8192, 32768, 65536}[r.Intn(6)] + r.Intn(3) - 1
+			k.Payload = []int{512, 1024, 4096, 8192, 32768, 65536, 131072, 196608, 262144}[r.Intn(9)] + r.Intn(3) - 1
 		}
 		k.Chunks = nil
 		left := k.Payload
